@@ -554,6 +554,13 @@ CHECKS["C07"] = {
                    "message; the parsed reply's continues (absent / false / true), error and parameters members; every fallible "
                    "call Ok or Err",
           bounds="all 20 returning paths of the function", stubs=C07_MODELS),
+        H("c07_error_kind", engine="smt", script="c07.py", timeout=(900, 1800),
+          functions=["<varlink::ErrorKind as From<varlink::Reply>>::from (rustc MIR)"],
+          symbolic="the reply's error name (any string), presence of error / parameters, whether the parameters deserialize into the "
+                   "error's parameter struct, presence and value of its field",
+          bounds="all 14 returning paths of the function",
+          stubs=["MIR symbolic execution; <&Cow<str> as PartialEq<&str>>::eq -> equality of string values; serde_json::from_value::<ErrorX> "
+                 "-> Ok(struct with a free optional field) or Err (free); Option<String>::unwrap_or_default, String::new -> their definitions"]),
     ],
     "assumptions": [
         "reduced claim: one thread. (send) a call object is consumed by its first send and a second send fails with "
@@ -563,9 +570,10 @@ CHECKS["C07"] = {
         "without the stream the call fails (IteratorOldReply) and touches nothing; after a reply with continues=true the call "
         "keeps the stream, after any other reply the stream is back in the connection; the outcome is Ok exactly when the reply "
         "has no error member, and an error built from the reply otherwise",
-        "outside: other threads sharing the connection (the RwLock is modelled as always available), the mapping from error name "
-        "to ErrorKind variant (<ErrorKind as From<Reply>>::from is a callee here), Iterator::next, Drop, the generated client "
-        "bindings, real sockets",
+        "(error kind) the four standard service error names map to their ErrorKind variant carrying the parameter when it is present "
+        "and deserializes (else the empty string); every other reply maps to VarlinkErrorReply carrying the reply itself",
+        "outside: other threads sharing the connection (the RwLock is modelled as always available), Iterator::next, Drop, the "
+        "generated client bindings (their own error enums), real sockets",
         "what is executed is the MIR rustc produces for the two functions, with the callee models listed under stubs",
     ],
 }
